@@ -1,5 +1,5 @@
 (* evermint's StateDB model (Model/EvmStateDB.v) refines the abstract EVM-view machine (Model/EvmAbs.v). *)
-From Coq Require Import Lia ZArith List Bool FunctionalExtensionality.
+From Coq Require Import Lia ZArith List Bool.
 From Evm Require Import EvmAbs EvmStateDB EvmAbsProofs.
 Import ListNotations.
 Open Scope Z_scope.
@@ -35,6 +35,11 @@ Record rel_e (s : est) (t : ast) : Prop := mkRelE {
   re_wf : wf_core (e_orig s) (e_cur s);
   re_wfs : Forall (wf_core (e_orig s)) (e_snaps s)
 }.
+
+Section WithFE.
+Hypothesis FE : funext_stmt.
+Let upd_id {V : Type} := @upd_id FE V.
+Let upd_upd {V : Type} := @upd_upd FE V.
 
 (* ------------------------------------------------------------------ store updates at one address *)
 
@@ -75,7 +80,7 @@ Lemma abse_set : forall orig c c' a x,
   abse_core orig c' = set_acc (abse_core orig c) a x.
 Proof.
   intros orig c c' a x [Ho _] Hs Hd Hx. apply acore_eq; [|exact Hs].
-  cbn [abse_core set_acc a_accs]. apply functional_extensionality. intro b. unfold upd.
+  cbn [abse_core set_acc a_accs]. apply FE. intro b. unfold upd.
   destruct (b =? a) eqn:E; [apply Z.eqb_eq in E; subst b; exact Hx|].
   apply Z.eqb_neq in E. destruct (Ho b E) as (H1 & H2 & H3 & H4). apply eview_ext; auto.
 Qed.
@@ -126,7 +131,7 @@ Definition cnum (s : estore) (a : Z) : option Z := match e_acc s a with Some (n,
 
 Lemma committed_ext : forall orig s s' a, cnum s a = cnum s' a -> e_committed orig s a = e_committed orig s' a.
 Proof.
-  intros orig s s' a H. apply functional_extensionality. intro k. unfold e_committed, cnum in *.
+  intros orig s s' a H. apply FE. intro k. unfold e_committed, cnum in *.
   destruct (e_acc s a) as [[n q]|], (e_acc s' a) as [[n' q']|]; try discriminate; [inversion H; subst|]; reflexivity.
 Qed.
 
@@ -163,7 +168,7 @@ Proof.
     + apply committed_ext. unfold cnum. rewrite Hacc, E. reflexivity.
   - destruct (Hnone eq_refl); subst. f_equal.
     + unfold e_seq. rewrite Hacc, E. reflexivity.
-    + apply functional_extensionality. intro k. rewrite (committed_none orig (e_s c) a k E).
+    + apply FE. intro k. rewrite (committed_none orig (e_s c) a k E).
       apply committed_fresh with (n := e_next (e_s c)); [unfold cnum; rewrite Hacc; reflexivity|].
       intros n0 q0 Ho. exact (wc_orignum _ _ W a n0 q0 Ho).
 Qed.
@@ -367,7 +372,7 @@ Proof.
       + split; [exact Hoth|]. repeat split; auto. lia.
       + intros x _. rewrite Hd. reflexivity.
       + unfold eview. rewrite Hba, Hch, Hstt, Hd, Hsd. unfold e_seq. rewrite Hac. cbn [abse_core a_accs eview a_bal]. f_equal.
-        apply functional_extensionality. intro k. apply committed_fresh with (n := e_next (e_s c)); [unfold cnum; rewrite Hac; reflexivity|].
+        apply FE. intro k. apply committed_fresh with (n := e_next (e_s c)); [unfold cnum; rewrite Hac; reflexivity|].
         intros n0 q0 Ho. exact (Won a n0 q0 Ho).
     - constructor.
       + intros x Hx. destruct (Z.eq_dec x a) as [->|Hne]; [congruence|]. destruct (Hoth x Hne) as (A & B & C & D). rewrite A in Hx. rewrite B, C, D. auto.
@@ -382,7 +387,7 @@ Proof.
   destruct (b =? 0) eqn:Eb.
   - eexists. split; [reflexivity|]. apply Hview; cbn [e_set_s e_s e_side e_selfd e_touched touch e_acc e_bal e_ch e_st e_other e_module e_next]; auto.
     + intros x Hx. rewrite !upd_other by exact Hx. auto.
-    + apply functional_extensionality. intro x. unfold upd. destruct (x =? a) eqn:E; [apply Z.eqb_eq in E; subst; symmetry; apply Wot|reflexivity].
+    + apply FE. intro x. unfold upd. destruct (x =? a) eqn:E; [apply Z.eqb_eq in E; subst; symmetry; apply Wot|reflexivity].
     + rewrite upd_upd, upd_same. reflexivity.
     + rewrite upd_same. apply Z.eqb_eq in Eb. symmetry. exact Eb.
     + rewrite upd_same. reflexivity.
@@ -391,7 +396,7 @@ Proof.
   - cbn [e_module]. rewrite (Wmod a). eexists. split; [reflexivity|].
     apply Hview; cbn [e_set_s e_s e_side e_selfd e_touched touch e_acc e_bal e_ch e_st e_other e_module e_next]; auto.
     + intros x Hx. rewrite !upd_other by exact Hx. auto.
-    + apply functional_extensionality. intro x. unfold upd. destruct (x =? a) eqn:E; [apply Z.eqb_eq in E; subst; symmetry; apply Wot|reflexivity].
+    + apply FE. intro x. unfold upd. destruct (x =? a) eqn:E; [apply Z.eqb_eq in E; subst; symmetry; apply Wot|reflexivity].
     + rewrite upd_upd, upd_same. reflexivity.
     + rewrite upd_same. reflexivity.
     + rewrite upd_same. reflexivity.
@@ -559,13 +564,13 @@ Proof.
   intros orig c W. pose proof W as [Wn Wnum Won Wst Wsel Wot Wmod].
   destruct (commit_loop_spec (e_selfd c) (e_touched c) (e_s c) Wmod) as (s' & Hl & Hnx & Hmo & Hb).
   exists s'. split; [exact Hl|]. split.
-  - apply acore_eq; [|reflexivity]. cbn [abse_core a_accs]. apply functional_extensionality. intro a.
+  - apply acore_eq; [|reflexivity]. cbn [abse_core a_accs]. apply FE. intro a.
     specialize (Hb a). unfold a_finalise_acc, eview at 2. cbn [a_sd a_nonce a_bal a_code a_stor].
     destruct (memZ a (e_touched c) && (memZ a (e_selfd c) || e_is_empty (e_s c) a)) eqn:D.
     + destruct Hb as (A & B & C & E & F).
       assert (L : eview s' (mkEcore s' [] [] side0) a = aacc0).
       { unfold eview, aacc0. cbn [e_s e_selfd memZ]. unfold e_seq. rewrite A, B, C, E. f_equal.
-        apply functional_extensionality; intro k; apply committed_none; exact A. }
+        apply FE; intro k; apply committed_none; exact A. }
       rewrite L. destruct (memZ a (e_selfd c)) eqn:Sd; [reflexivity|].
       apply andb_true_iff in D. destruct D as [_ D]. cbn [orb] in D. unfold e_is_empty in D.
       apply andb_true_iff in D. destruct D as [D D5]. apply andb_true_iff in D. destruct D as [D D4].
@@ -580,7 +585,7 @@ Proof.
       * exact B.
       * exact C.
       * rewrite E. reflexivity.
-      * apply functional_extensionality. intro k. unfold e_committed. rewrite A.
+      * apply FE. intro k. unfold e_committed. rewrite A.
         destruct (e_acc (e_s c) a) as [[n q]|] eqn:Ea.
         -- rewrite Z.eqb_refl, E. reflexivity.
         -- destruct (Wn a Ea) as (_ & _ & Hst). unfold eview. cbn [a_stor]. rewrite Hst. reflexivity.
@@ -620,7 +625,7 @@ Proof.
   intros orig c a W H. unfold e_exist in H. apply orb_false_iff in H. destruct H as [Hsd Hh].
   unfold e_has in Hh. destruct (e_acc (e_s c) a) as [|] eqn:E; [discriminate|].
   destruct (wc_nodata _ _ W a E) as (Hb & Hc & Hs). unfold eview, aacc0, e_seq. rewrite E, Hb, Hc, Hs, Hsd. f_equal.
-  apply functional_extensionality. intro k. apply committed_none. exact E.
+  apply FE. intro k. apply committed_none. exact E.
 Qed.
 
 Lemma empty_agree : forall orig c a, wf_core orig c -> e_is_empty (e_s c) a = a_empty (eview orig c a).
@@ -724,7 +729,7 @@ Proof.
     change (e_set_s (touch (e_cur s) a) s') with (mkEcore s' (a :: e_touched (e_cur s)) (e_selfd (e_cur s)) (e_side (e_cur s))).
     rewrite Ha. f_equal. cbn [s' e_bal e_ch e_st]. rewrite upd_same, Fb, Fc, Fs, Hq.
     cbn [abse_core a_accs eview a_nonce a_bal a_code a_stor a_comm a_sd]. f_equal.
-    apply functional_extensionality. intro k'. rewrite st_get_set. unfold upd. reflexivity.
+    apply FE. intro k'. rewrite st_get_set. unfold upd. reflexivity.
   - (* Suicide *)
     cbn [abse_core a_accs] in Hd.
     destruct (suicide_spec s (e_orig s) (e_cur s) a W Hd) as (c' & Hc & Ha & Hw). cbv zeta in Hc.
@@ -814,3 +819,5 @@ Proof.
     constructor; cbn [e_cur e_orig e_issued e_snaps a_cur a_count a_live]; auto.
     + constructor.
 Qed.
+
+End WithFE.
